@@ -26,7 +26,7 @@ ABSENT = '__absent__'
 def scenarios(thorough):
     """(label, pre, [actions], what) - writers on distinct keys, writer/reader, overwrite/reader, writer/opener"""
     out = []
-    for label in ('dir-pickle', 'dir-json', 'sql', 'file-pickle', 'file-json'):
+    for label in ('dir-pickle', 'dir-json', 'dir-source', 'sql', 'file-pickle', 'file-json'):
         ks = ['a', 'b', 'c', 'd']
         pre = [['a', 1]]
         readers = [['lookup', 'b'], ['len'], ['keys'], ['items'], ['read-cache']]
